@@ -546,8 +546,17 @@ def check_sum_case(T, sc, stats):
         # backups), so that equal digests follow each other in the list
         if sc["mod"]["pos"] & 1:
             files = [files[0]] * len(files)
+        style = (sc["mod"]["pos"] >> 5) & 3
         for i, (size, cseed) in enumerate(files):
             nm = sc["names"][i]
+            # names are whatever follows the two blanks on a list line: a leading '*' (the binary-mode marker of other checksum tools
+            # is not part of this format), blanks inside the name
+            if style == 1 and i == 0:
+                nm = "*" + nm[2:]
+            elif style == 2 and i == 0:
+                nm = nm[:2] + " " + nm[2:] + " x"
+            elif style == 3 and i == 0:
+                nm = "**" + nm
             with open(os.path.join(wd, nm), "wb") as f:
                 f.write(content(size, cseed))
             names.append(nm)
